@@ -11,6 +11,8 @@ db_table).
 """
 import copy
 
+import random
+
 from .. import edits as E, labenv, seqcase, siglab
 from .. import specs as S
 
@@ -30,8 +32,10 @@ ASSUMPTIONS = [
     'the hint demands',
     'db_table_comment is not generated (unsupported on SQLite)',
 ]
-FLOORS = {'quick': {'nontrivial': 300, 'hints_applied': 300},
-          'thorough': {'nontrivial': 6000, 'hints_applied': 6000}}
+FLOORS = {'quick': {'nontrivial': 300, 'hints_applied': 300,
+                    'hint_reuse_checked': 300},
+          'thorough': {'nontrivial': 6000, 'hints_applied': 6000,
+                       'hint_reuse_checked': 6000}}
 SIZES = {'quick': 1500, 'thorough': 30000}
 
 OPS = ['add_field'] * 4 + ['delete_field'] * 3 + ['change_field'] * 6 + \
@@ -52,7 +56,9 @@ def worker_setup():
     labenv.setup()
 
 
-def gen_pair(rng):
+def gen_pair(rng, comments=False):
+    """comments: some models carry a Meta.db_table_comment (kept unchanged:
+    ChangeMeta(db_table_comment) cannot be simulated on SQLite)."""
     two = rng.random() < 0.4
     gen = E.SpecGen(rng, apps=('app1', 'app2') if two else ('app1',))
     old = gen.gen_spec()
@@ -69,6 +75,13 @@ def gen_pair(rng):
                     ent = [rng.choice(cands)]
                     if ent not in cur:
                         cur.append(ent)
+    if comments:
+        crng = random.Random(rng.random())
+        for a, mods in old.items():
+            for m, ms in mods.items():
+                if crng.random() < 0.4:
+                    ms.setdefault('meta', {})['db_table_comment'] = \
+                        crng.choice(['c1', "it's", 'ü'])
     new = old
     kinds = []
     n = rng.choice([1, 1, 2, 3, 4, 6])
@@ -194,7 +207,7 @@ def run_case(desc):
     from django_evolution.diff import Diff
     from .c01 import concrete_initials
     rng = seqcase.rng_for('C05', desc['seed'], desc['i'])
-    old, new, kinds = gen_pair(rng)
+    old, new, kinds = gen_pair(rng, comments=True)
     items, stats = [], {'pairs': 1}
     for k in kinds:
         stats.setdefault('edit_kinds', {})
@@ -215,8 +228,11 @@ def run_case(desc):
     if hinted is not None:
         work = osig.clone()
         ok = True
+        texts_before = {}
         for app, muts in hinted.items():
             concrete_initials(muts, rng)
+            texts_before[app] = [str(m) for m in muts]
+        for app, muts in hinted.items():
             for m in muts:
                 err = siglab.simulate_one(work, app, m)
                 stats['mutations_simulated'] = stats.get(
@@ -230,6 +246,28 @@ def run_case(desc):
                     break
             if not ok:
                 break
+        if ok:
+            # the hinted mutations are simulated before they are rendered
+            # (evolve --hint) and may be used again: simulating must not
+            # change them
+            for app, muts in hinted.items():
+                now = [str(m) for m in muts]
+                if now != texts_before.get(app):
+                    items.append({'type': 'HINT_CHANGED_BY_SIMULATION',
+                                  'app': app,
+                                  'before': str(texts_before.get(app))[:200],
+                                  'after': str(now)[:200]})
+            work2 = osig.clone()
+            for app, muts in hinted.items():
+                for m in muts:
+                    if siglab.simulate_one(work2, app, m):
+                        items.append({'type': 'HINT_SECOND_USE_FAILS',
+                                      'mutation': type(m).__name__})
+                        break
+            else:
+                if not Diff(work2, work).is_empty(ignore_apps=False):
+                    items.append({'type': 'HINT_SECOND_USE_DIFFERS'})
+            stats['hint_reuse_checked'] = 1
         if ok:
             stats['hints_applied'] = 1
             res = Diff(work, nsig)
